@@ -216,10 +216,12 @@ def cbrtNewton (c : Ctx) (ax : Dec) : Option (Sum ErrKind (Dec × Cond)) :=
   let ed : ED := { c := nc }
   match scaleLoop (fun z => z.cmp decOneEighth < 0) decEight 400000 ed ax 0 with
   | none => none
-  | some (ed, z, down) =>
+  | some (.inl er) => some (.inl er)                       -- if err := ed.Err(); err != nil { return 0, err }
+  | some (.inr (ed, z, down)) =>
   match scaleLoop (fun z => z.cmp decOne > 0) decOneEighth 400000 ed z 0 with
   | none => none
-  | some (ed, z, up) =>
+  | some (.inl er) => some (.inl er)                       -- if err := ed.Err(); err != nil { return 0, err }
+  | some (.inr (ed, z, up)) =>
     let z0 := z
     let r1 := ed.step z (fun c => mulOp c z cbrtC1)
     let r2 := r1.1.step r1.2 (fun c => addOp c r1.2 cbrtC2 false)
